@@ -1,8 +1,375 @@
-(* C13 — proofs about the model (see Properties.v for the exported statements). *)
+(* C13 — proofs, part V: the validating webhook (see Properties.v for the exported statements). *)
 From Coq Require Import String List ZArith Bool Lia.
-From Verif Require Import Gen.Gen_consts Gen.Gen_funcs C13.Model C13.Spec.
+From Verif Require Import Lib.Wire Gen.Gen_consts Gen.Gen_funcs C13.Model C13.Spec C13.Codec C13.Check.
 Import ListNotations.
 Open Scope Z_scope.
 
+(* ------------------------------------------------------------------ strings *)
 Lemma seqb_eq a b : seqb a b = true <-> a = b.
 Proof. unfold seqb. apply String.eqb_eq. Qed.
+Lemma seqb_neq a b : seqb a b = false <-> a <> b.
+Proof. unfold seqb. apply String.eqb_neq. Qed.
+Lemma seqb_refl a : seqb a a = true.
+Proof. apply seqb_eq. reflexivity. Qed.
+Lemma seqb_spec a b : reflect (a = b) (seqb a b).
+Proof. unfold seqb. apply String.eqb_spec. Qed.
+
+(* the generated class names are pairwise distinct (re-checked whenever a name is edited) *)
+Ltac sne := apply seqb_neq; vm_compute; reflexivity.
+Lemma prod_ne_none : PriorityProd <> PriorityNone. Proof. sne. Qed.
+Lemma mid_ne_none : PriorityMid <> PriorityNone. Proof. sne. Qed.
+Lemma batch_ne_none : PriorityBatch <> PriorityNone. Proof. sne. Qed.
+Lemma free_ne_none : PriorityFree <> PriorityNone. Proof. sne. Qed.
+Lemma prod_ne_mid : PriorityProd <> PriorityMid. Proof. sne. Qed.
+Lemma prod_ne_batch : PriorityProd <> PriorityBatch. Proof. sne. Qed.
+Lemma prod_ne_free : PriorityProd <> PriorityFree. Proof. sne. Qed.
+Lemma mid_ne_batch : PriorityMid <> PriorityBatch. Proof. sne. Qed.
+Lemma mid_ne_free : PriorityMid <> PriorityFree. Proof. sne. Qed.
+Lemma batch_ne_free : PriorityBatch <> PriorityFree. Proof. sne. Qed.
+Lemma default_is_none : DefaultPriorityClass = PriorityNone. Proof. reflexivity. Qed.
+
+Lemma lse_ne_none : QoSLSE <> QoSNone. Proof. sne. Qed.
+Lemma lsr_ne_none : QoSLSR <> QoSNone. Proof. sne. Qed.
+Lemma ls_ne_none : QoSLS <> QoSNone. Proof. sne. Qed.
+Lemma be_ne_none : QoSBE <> QoSNone. Proof. sne. Qed.
+Lemma system_ne_none : QoSSystem <> QoSNone. Proof. sne. Qed.
+Lemma lsr_ne_be : QoSLSR <> QoSBE. Proof. sne. Qed.
+Lemma lse_ne_be : QoSLSE <> QoSBE. Proof. sne. Qed.
+Lemma ls_ne_be : QoSLS <> QoSBE. Proof. sne. Qed.
+Lemma system_ne_be : QoSSystem <> QoSBE. Proof. sne. Qed.
+Lemma lsr_ne_lse : QoSLSR <> QoSLSE. Proof. sne. Qed.
+
+(* ------------------------------------------------------------------ priority bands *)
+Definition in_band (lo hi p : Z) : Prop := lo <= p <= hi.
+
+Lemma bands_ordered :
+  PriorityFreeValueMin <= PriorityFreeValueMax /\ PriorityFreeValueMax < PriorityBatchValueMin
+  /\ PriorityBatchValueMin <= PriorityBatchValueMax /\ PriorityBatchValueMax < PriorityMidValueMin
+  /\ PriorityMidValueMin <= PriorityMidValueMax /\ PriorityMidValueMax < PriorityProdValueMin
+  /\ PriorityProdValueMin <= PriorityProdValueMax.
+Proof. vm_compute. repeat split; discriminate. Qed.
+
+Lemma band_cases p :
+  (in_band PriorityProdValueMin PriorityProdValueMax p /\ getPriorityClassByPriority p = PriorityProd)
+  \/ (in_band PriorityMidValueMin PriorityMidValueMax p /\ getPriorityClassByPriority p = PriorityMid)
+  \/ (in_band PriorityBatchValueMin PriorityBatchValueMax p /\ getPriorityClassByPriority p = PriorityBatch)
+  \/ (in_band PriorityFreeValueMin PriorityFreeValueMax p /\ getPriorityClassByPriority p = PriorityFree)
+  \/ (~ in_band PriorityProdValueMin PriorityProdValueMax p
+      /\ ~ in_band PriorityMidValueMin PriorityMidValueMax p
+      /\ ~ in_band PriorityBatchValueMin PriorityBatchValueMax p
+      /\ ~ in_band PriorityFreeValueMin PriorityFreeValueMax p
+      /\ getPriorityClassByPriority p = PriorityNone).
+Proof.
+  pose proof bands_ordered as Hb.
+  unfold getPriorityClassByPriority, in_band.
+  destruct (PriorityProdValueMin <=? p) eqn:E1; destruct (p <=? PriorityProdValueMax) eqn:E2;
+  destruct (PriorityMidValueMin <=? p) eqn:E3; destruct (p <=? PriorityMidValueMax) eqn:E4;
+  destruct (PriorityBatchValueMin <=? p) eqn:E5; destruct (p <=? PriorityBatchValueMax) eqn:E6;
+  destruct (PriorityFreeValueMin <=? p) eqn:E7; destruct (p <=? PriorityFreeValueMax) eqn:E8;
+  cbn [andb];
+  try (left; split; [lia | reflexivity]);
+  try (right; left; split; [lia | reflexivity]);
+  try (right; right; left; split; [lia | reflexivity]);
+  try (right; right; right; left; split; [lia | reflexivity]);
+  try (right; right; right; right; repeat split; try lia; reflexivity).
+Qed.
+
+Lemma bands_disjoint_cover p :
+  (getPriorityClassByPriority p = PriorityProd <-> in_band PriorityProdValueMin PriorityProdValueMax p)
+  /\ (getPriorityClassByPriority p = PriorityMid <-> in_band PriorityMidValueMin PriorityMidValueMax p)
+  /\ (getPriorityClassByPriority p = PriorityBatch <-> in_band PriorityBatchValueMin PriorityBatchValueMax p)
+  /\ (getPriorityClassByPriority p = PriorityFree <-> in_band PriorityFreeValueMin PriorityFreeValueMax p)
+  /\ (getPriorityClassByPriority p = PriorityNone <->
+        ~ in_band PriorityProdValueMin PriorityProdValueMax p
+        /\ ~ in_band PriorityMidValueMin PriorityMidValueMax p
+        /\ ~ in_band PriorityBatchValueMin PriorityBatchValueMax p
+        /\ ~ in_band PriorityFreeValueMin PriorityFreeValueMax p).
+Proof.
+  pose proof bands_ordered as Hb. unfold in_band in *.
+  pose proof prod_ne_none. pose proof mid_ne_none. pose proof batch_ne_none. pose proof free_ne_none.
+  pose proof prod_ne_mid. pose proof prod_ne_batch. pose proof prod_ne_free.
+  pose proof mid_ne_batch. pose proof mid_ne_free. pose proof batch_ne_free.
+  destruct (band_cases p) as [[Hi He]|[[Hi He]|[[Hi He]|[[Hi He]|(N1 & N2 & N3 & N4 & He)]]]];
+  unfold in_band in *; rewrite He;
+  repeat split; intros; try congruence; try lia; try (exfalso; lia).
+Qed.
+
+(* every pod has exactly one of the five classes *)
+Lemma pclass_by_name_cases s :
+  pclass_by_name s = PriorityProd \/ pclass_by_name s = PriorityMid \/ pclass_by_name s = PriorityBatch
+  \/ pclass_by_name s = PriorityFree \/ pclass_by_name s = PriorityNone.
+Proof.
+  unfold pclass_by_name.
+  destruct (seqb_spec s PriorityProd); [subst; cbn [orb]; auto|].
+  destruct (seqb_spec s PriorityMid); [subst; cbn [orb]; auto|].
+  destruct (seqb_spec s PriorityBatch); [subst; cbn [orb]; auto|].
+  destruct (seqb_spec s PriorityFree); [subst; cbn [orb]; auto 6|].
+  cbn [orb]. auto 6.
+Qed.
+Lemma pclass_raw_cases p :
+  pclass_raw p = PriorityProd \/ pclass_raw p = PriorityMid \/ pclass_raw p = PriorityBatch
+  \/ pclass_raw p = PriorityFree \/ pclass_raw p = PriorityNone.
+Proof.
+  unfold pclass_raw. destruct (lget K_PCLASS (p_labels p)); [apply pclass_by_name_cases|].
+  destruct (p_prio p) as [v|]; [|auto 6].
+  destruct (band_cases v) as [[_ He]|[[_ He]|[[_ He]|[[_ He]|(_ & _ & _ & _ & He)]]]]; rewrite He; auto 6.
+Qed.
+
+(* ------------------------------------------------------------------ quantities *)
+Lemma ceil_div_spec a b : 0 < b -> b * (ceil_div a b - 1) < a <= b * ceil_div a b.
+Proof.
+  intros Hb. unfold ceil_div.
+  pose proof (Z.div_mod (- a) b ltac:(lia)) as Hd.
+  pose proof (Z.mod_pos_bound (- a) b Hb) as Hm. nia.
+Qed.
+Lemma ceil_div_unique a b c : 0 < b -> b * (c - 1) < a <= b * c -> ceil_div a b = c.
+Proof. intros Hb Hc. pose proof (ceil_div_spec a b Hb). nia. Qed.
+
+(* the implementation's test  Value()*1000 == MilliValue()  says exactly: the amount in
+   milli-cores is a multiple of 1000 *)
+Lemma whole_iff q : unit_value q * 1000 = milli_value q <-> milli_value q mod 1000 = 0.
+Proof.
+  unfold unit_value, milli_value, nano. split.
+  - intros H. rewrite <- H. apply Z_mod_mult.
+  - intros H.
+    pose proof (ceil_div_spec q 1000000 ltac:(lia)) as Hm.
+    pose proof (Z.div_mod (ceil_div q 1000000) 1000 ltac:(lia)) as Hd. rewrite H in Hd.
+    set (k := ceil_div q 1000000 / 1000) in *.
+    rewrite (ceil_div_unique q 1000000000 k); lia.
+Qed.
+(* in nano-cores: within one milli-core below a whole CPU *)
+Lemma whole_nano q : milli_value q mod 1000 = 0 <->
+  exists n, nano * n - 1000000 < q <= nano * n.
+Proof.
+  unfold milli_value, nano. split.
+  - intros H. pose proof (ceil_div_spec q 1000000 ltac:(lia)) as Hm.
+    pose proof (Z.div_mod (ceil_div q 1000000) 1000 ltac:(lia)) as Hd. rewrite H in Hd.
+    exists (ceil_div q 1000000 / 1000). lia.
+  - intros [n Hn]. rewrite (ceil_div_unique q 1000000 (1000 * n)); [|lia|lia].
+    rewrite Z.mul_comm. apply Z_mod_mult.
+Qed.
+
+(* ------------------------------------------------------------------ the verdict mask *)
+Lemma bit_zero b v : v <> 0 -> bit b v = 0 -> b = false.
+Proof. destruct b; cbn; congruence. Qed.
+Lemma bit_range b v : 0 <= v -> 0 <= bit b v.
+Proof. destruct b; cbn; lia. Qed.
+
+Lemma sum8_zero b1 b2 b3 b4 b5 b6 b7 b8 :
+  bit b1 E_IMMUT_QOS + bit b2 E_IMMUT_PCLASS + bit b3 E_IMMUT_PRIO + bit b4 E_BATCH_NEEDS_BE
+  + bit b5 E_PAIR_BE + bit b6 E_PAIR_LSR + bit b7 E_CPU_REQUIRED + bit b8 E_CPU_INTEGER = 0
+  <-> b1 = false /\ b2 = false /\ b3 = false /\ b4 = false /\ b5 = false /\ b6 = false
+      /\ b7 = false /\ b8 = false.
+Proof.
+  split.
+  - destruct b1, b2, b3, b4, b5, b6, b7, b8; cbn; intros H; try discriminate H; repeat split; reflexivity.
+  - intros (-> & -> & -> & -> & -> & -> & -> & ->). reflexivity.
+Qed.
+
+Section Verdict.
+Variables (g : bool) (op : Z) (old new : pod).
+
+Local Notation q := (qos_raw new).
+Local Notation c := (pclass_raw new).
+Local Notation cpu := (pod_request new R_CPU).
+
+Lemma allowed_iff :
+  allowed g op old new = true <->
+    ((op =? OP_UPDATE) && negb (seqb (qos_raw new) (qos_raw old)) = false)
+    /\ ((op =? OP_UPDATE) && negb (seqb (pclass_raw new) (pclass_raw old)) = false)
+    /\ ((op =? OP_UPDATE) && negb g
+         && negb (seqb (lval K_PRIO (p_labels new)) (lval K_PRIO (p_labels old))) = false)
+    /\ (negb ((pod_request new R_BCPU =? 0) && (pod_request new R_BMEM =? 0))
+         && negb (seqb q QoSBE) = false)
+    /\ (seqb q QoSBE && (seqb c PriorityNone || seqb c PriorityProd) = false)
+    /\ (seqb q QoSLSR && (seqb c PriorityNone || seqb c PriorityMid
+                           || seqb c PriorityBatch || seqb c PriorityFree) = false)
+    /\ ((seqb q QoSLSR || seqb q QoSLSE) && (cpu =? 0) = false)
+    /\ ((seqb q QoSLSR || seqb q QoSLSE) && negb (cpu =? 0)
+         && negb (unit_value cpu * 1000 =? milli_value cpu) = false).
+Proof.
+  unfold allowed, validate.
+  rewrite Z.eqb_eq. apply sum8_zero.
+Qed.
+
+Lemma admitted_sound : allowed g op old new = true -> C13_admitted op old new.
+Proof.
+  intros H. apply allowed_iff in H.
+  destruct H as (H1 & H2 & H3 & H4 & H5 & H6 & H7 & H8).
+  unfold C13_admitted, pair_be_ok, pair_lsr_ok, whole_cpus, batch_only_be, immutable_ok.
+  refine (conj _ (conj _ (conj _ (conj _ _)))).
+  - (* BE: neither none nor prod *)
+    intros Hq. rewrite Hq, seqb_refl in H5. cbn [andb] in H5. apply orb_false_iff in H5.
+    destruct H5 as [A B]. apply seqb_neq in A, B. split; assumption.
+  - (* LSR: prod *)
+    intros Hq. rewrite Hq, seqb_refl in H6. cbn [andb] in H6.
+    apply orb_false_iff in H6. destruct H6 as [H6 A4].
+    apply orb_false_iff in H6. destruct H6 as [H6 A3].
+    apply orb_false_iff in H6. destruct H6 as [A1 A2].
+    apply seqb_neq in A1, A2, A3, A4.
+    destruct (pclass_raw_cases new) as [Hc|[Hc|[Hc|[Hc|Hc]]]]; [exact Hc|contradiction..].
+  - (* whole CPUs *)
+    intros Hq.
+    assert (He : seqb q QoSLSR || seqb q QoSLSE = true).
+    { destruct Hq as [Hq|Hq]; rewrite Hq, seqb_refl; cbn; rewrite ?orb_true_r; reflexivity. }
+    rewrite He in H7, H8. cbn [andb] in H7, H8. rewrite H7 in H8. cbn [negb andb] in H8.
+    apply negb_false_iff, Z.eqb_eq in H8. apply Z.eqb_neq in H7.
+    split; [exact H7|]. apply whole_iff. exact H8.
+  - (* batch -> BE *)
+    intros Hb.
+    destruct (seqb_spec q QoSBE) as [Hq|Hq]; [exact Hq|]. cbn [negb] in H4. rewrite andb_true_r in H4.
+    apply negb_false_iff, andb_true_iff in H4. destruct H4 as [Ha Hb']. apply Z.eqb_eq in Ha, Hb'.
+    destruct Hb; contradiction.
+  - (* immutability *)
+    intros Hop. rewrite Hop in H1, H2. cbn [Z.eqb OP_UPDATE Pos.eqb andb] in H1, H2.
+    apply negb_false_iff, seqb_eq in H1. apply negb_false_iff, seqb_eq in H2. split; assumption.
+Qed.
+
+(* the complete decision table: nothing else is ever rejected *)
+Lemma admitted_complete :
+  allowed g op old new = true <->
+    C13_admitted op old new
+    /\ (op = OP_UPDATE -> g = false -> lval K_PRIO (p_labels new) = lval K_PRIO (p_labels old)).
+Proof.
+  split.
+  - intros H. split; [apply admitted_sound; exact H|].
+    apply allowed_iff in H. destruct H as (_ & _ & H3 & _).
+    intros Hop Hg. rewrite Hop, Hg in H3. cbn [Z.eqb OP_UPDATE Pos.eqb andb negb] in H3.
+    apply negb_false_iff, seqb_eq in H3. exact H3.
+  - intros [(P1 & P2 & P3 & P4 & P5) P6]. apply allowed_iff.
+    unfold pair_be_ok, pair_lsr_ok, whole_cpus, batch_only_be, immutable_ok in *.
+    repeat split.
+    + destruct (Z.eqb_spec op OP_UPDATE) as [Hop|]; [|reflexivity]. cbn [andb].
+      destruct (P5 Hop) as [Hq _]. rewrite Hq, seqb_refl. reflexivity.
+    + destruct (Z.eqb_spec op OP_UPDATE) as [Hop|]; [|reflexivity]. cbn [andb].
+      destruct (P5 Hop) as [_ Hc]. rewrite Hc, seqb_refl. reflexivity.
+    + destruct (Z.eqb_spec op OP_UPDATE) as [Hop|]; [|reflexivity]. cbn [andb].
+      destruct g eqn:Eg; [reflexivity|]. cbn [negb andb]. rewrite (P6 Hop eq_refl), seqb_refl. reflexivity.
+    + destruct (seqb_spec q QoSBE) as [Hq|Hq]; [cbn; apply andb_false_r|]. cbn [negb]. rewrite andb_true_r.
+      apply negb_false_iff, andb_true_iff.
+      split; apply Z.eqb_eq.
+      * destruct (Z.eq_dec (pod_request new R_BCPU) 0) as [E|E]; [exact E|]. exfalso. apply Hq, P4. left. exact E.
+      * destruct (Z.eq_dec (pod_request new R_BMEM) 0) as [E|E]; [exact E|]. exfalso. apply Hq, P4. right. exact E.
+    + destruct (seqb_spec q QoSBE) as [Hq|Hq]; [|reflexivity]. cbn [andb].
+      destruct (P1 Hq) as [N1 N2]. apply seqb_neq in N1, N2. rewrite N1, N2. reflexivity.
+    + destruct (seqb_spec q QoSLSR) as [Hq|Hq]; [|reflexivity]. cbn [andb].
+      rewrite (P2 Hq).
+      pose proof prod_ne_none as A1. pose proof prod_ne_mid as A2.
+      pose proof prod_ne_batch as A3. pose proof prod_ne_free as A4.
+      apply seqb_neq in A1, A2, A3, A4. rewrite A1, A2, A3, A4. reflexivity.
+    + destruct (seqb_spec q QoSLSR) as [Hq|Hq].
+      * cbn [orb andb]. apply Z.eqb_neq. apply P3. left. exact Hq.
+      * destruct (seqb_spec q QoSLSE) as [Hq'|Hq']; [|reflexivity].
+        cbn [orb andb]. apply Z.eqb_neq. apply P3. right. exact Hq'.
+    + destruct (seqb q QoSLSR || seqb q QoSLSE) eqn:He; [|reflexivity]. cbn [andb].
+      assert (Hq : q = QoSLSR \/ q = QoSLSE).
+      { apply orb_true_iff in He. destruct He as [He|He]; apply seqb_eq in He; auto. }
+      destruct (P3 Hq) as [Hnz Hw]. apply whole_iff in Hw.
+      apply Z.eqb_eq in Hw. rewrite Hw. cbn. apply andb_false_r.
+Qed.
+
+(* Spec connection: the decision procedure run on an "admitted" verdict decides the Prop *)
+Lemma t1_spec : seqb q QoSBE && (seqb c PriorityNone || seqb c PriorityProd) = false <-> pair_be_ok new.
+Proof.
+  unfold pair_be_ok.
+  destruct (seqb_spec q QoSBE); destruct (seqb_spec c PriorityNone); destruct (seqb_spec c PriorityProd);
+  cbn [andb orb]; intuition congruence.
+Qed.
+Lemma t2_spec : seqb q QoSLSR && negb (seqb c PriorityProd) = false <-> pair_lsr_ok new.
+Proof.
+  unfold pair_lsr_ok.
+  destruct (seqb_spec q QoSLSR); destruct (seqb_spec c PriorityProd); cbn [andb negb]; intuition congruence.
+Qed.
+Lemma t3_spec :
+  (seqb q QoSLSR || seqb q QoSLSE) && ((cpu =? 0) || negb (milli_value cpu mod 1000 =? 0)) = false
+  <-> whole_cpus new.
+Proof.
+  unfold whole_cpus.
+  destruct (seqb_spec q QoSLSR); destruct (seqb_spec q QoSLSE);
+  destruct (Z.eqb_spec cpu 0); destruct (Z.eqb_spec (milli_value cpu mod 1000) 0);
+  cbn [andb orb negb]; intuition congruence.
+Qed.
+Lemma t4_spec :
+  negb ((pod_request new R_BCPU =? 0) && (pod_request new R_BMEM =? 0)) && negb (seqb q QoSBE) = false
+  <-> batch_only_be new.
+Proof.
+  unfold batch_only_be.
+  destruct (seqb_spec q QoSBE); destruct (Z.eqb_spec (pod_request new R_BCPU) 0);
+  destruct (Z.eqb_spec (pod_request new R_BMEM) 0); cbn [andb orb negb]; intuition congruence.
+Qed.
+Lemma t56_spec :
+  ((op =? OP_UPDATE) && negb (seqb q (qos_raw old)) = false
+   /\ (op =? OP_UPDATE) && negb (seqb c (pclass_raw old)) = false)
+  <-> immutable_ok op old new.
+Proof.
+  unfold immutable_ok.
+  destruct (Z.eqb_spec op OP_UPDATE); destruct (seqb_spec q (qos_raw old));
+  destruct (seqb_spec c (pclass_raw old)); cbn [andb negb]; intuition congruence.
+Qed.
+
+Lemma validate_code_spec : validate_code op old new true = 0 <-> C13_admitted op old new.
+Proof.
+  unfold C13_admitted.
+  rewrite <- t1_spec, <- t2_spec, <- t3_spec, <- t4_spec, <- t56_spec.
+  unfold validate_code. cbn [negb].
+  destruct (seqb q QoSBE && (seqb c PriorityNone || seqb c PriorityProd));
+  destruct (seqb q QoSLSR && negb (seqb c PriorityProd));
+  destruct ((seqb q QoSLSR || seqb q QoSLSE) && ((cpu =? 0) || negb (milli_value cpu mod 1000 =? 0)));
+  destruct (negb ((pod_request new R_BCPU =? 0) && (pod_request new R_BMEM =? 0)) && negb (seqb q QoSBE));
+  destruct ((op =? OP_UPDATE) && negb (seqb q (qos_raw old)));
+  destruct ((op =? OP_UPDATE) && negb (seqb c (pclass_raw old)));
+  intuition discriminate.
+Qed.
+
+End Verdict.
+
+(* what the driver runs: the property holds on the model's own observable, for every input *)
+Lemma validate_stream_holds inp : prop_validate inp (run_validate inp) = 0.
+Proof.
+  unfold prop_validate, run_validate.
+  destruct (dec_validate inp) as [[[g op] old] new].
+  cbn [zb bz].
+  destruct (validate g op old new =? 0) eqn:E.
+  - cbn. apply validate_code_spec. apply (admitted_sound g). exact E.
+  - reflexivity.
+Qed.
+
+(* ------------------------------------------------------------------ exported forms *)
+Lemma pairs_thm g op old new :
+  allowed g op old new = true ->
+  (qos_raw new = QoSBE -> pclass_raw new <> PriorityNone /\ pclass_raw new <> PriorityProd)
+  /\ (qos_raw new = QoSLSR -> pclass_raw new = PriorityProd).
+Proof. intros H. destruct (admitted_sound g op old new H) as (A & B & _). split; assumption. Qed.
+
+Lemma whole_cpus_thm g op old new :
+  allowed g op old new = true ->
+  qos_raw new = QoSLSR \/ qos_raw new = QoSLSE ->
+  pod_request new R_CPU <> 0 /\ milli_value (pod_request new R_CPU) mod 1000 = 0.
+Proof. intros H. destruct (admitted_sound g op old new H) as (_ & _ & C & _). exact C. Qed.
+
+Lemma whole_exact_thm q :
+  (unit_value q * 1000 = milli_value q <-> milli_value q mod 1000 = 0)
+  /\ (milli_value q mod 1000 = 0 <-> exists n, nano * n - 1000000 < q <= nano * n).
+Proof. split; [apply whole_iff|apply whole_nano]. Qed.
+
+Lemma batch_only_be_thm g op old new :
+  allowed g op old new = true ->
+  pod_request new R_BCPU <> 0 \/ pod_request new R_BMEM <> 0 -> qos_raw new = QoSBE.
+Proof. intros H. destruct (admitted_sound g op old new H) as (_ & _ & _ & D & _). exact D. Qed.
+
+Lemma immutable_thm g old new :
+  allowed g OP_UPDATE old new = true ->
+  qos_raw new = qos_raw old /\ pclass_raw new = pclass_raw old.
+Proof. intros H. destruct (admitted_sound g OP_UPDATE old new H) as (_ & _ & _ & _ & E). apply E. reflexivity. Qed.
+
+Lemma milli_ceiling q : 1000000 * (milli_value q - 1) < q <= 1000000 * milli_value q.
+Proof. unfold milli_value. apply ceil_div_spec. lia. Qed.
+
+(* 1.9995 CPUs (1999500 micro-cores) on an LSR/prod pod: admitted *)
+Definition submilli_pod : pod :=
+  mkPod [(K_QOS, QoSLSR)] (Some 9500) EmptyString []
+        [mkC false [(R_CPU, 1999500000)] []] [] AnnAbsent.
+Lemma whole_strict_refuted :
+  exists p, allowed false OP_CREATE p p = true /\ qos_raw p = QoSLSR
+            /\ pod_request p R_CPU mod nano <> 0.
+Proof. exists submilli_pod. vm_compute. repeat split; discriminate. Qed.
